@@ -1,7 +1,7 @@
 (* C04 — Links and monitors: exactly one notification when the target goes away.
    Property theorems only; proofs live in Rel/. *)
 From Coq Require Import Permutation.
-From Ergo Require Import Common.Base Rel.Amap Rel.Model Rel.TMProofs Rel.RegProofs Rel.AgreeProofs Rel.RaceProofs Rel.Cases Rel.RaceGen Rel.RaceGenProofs.
+From Ergo Require Import Common.Base Rel.Amap Rel.Model Rel.TMProofs Rel.RegProofs Rel.AgreeProofs Rel.RaceProofs Rel.Cases Rel.RaceGen Rel.RaceGenProofs Rel.NodeRace Rel.NodeRaceProofs.
 Local Open Scope N_scope.
 
 (* Every method of the concrete target manager (relations map + per-target index) refines the
@@ -220,6 +220,42 @@ Print Assumptions C04_drain_before_delete_refuted.
 Theorem C04_spawn_init_fail_refuted_before_fix : forall mon, init_fail_old_lost mon = true.
 Proof. exact spawn_init_fail_without_drain_refuted. Qed.
 Print Assumptions C04_spawn_init_fail_refuted_before_fix.
+
+(* The NODE target.  process.LinkNode / MonitorNode (connection lookup, Add, re-check of the
+   connection table, roll-back - the last two since commit da9362c) against
+   network.unregisterConnection (connections.Delete, then RouteNodeDown = CleanupNode + sends), for a
+   process of this node and every schedule of the two programs: at the end the connection is gone
+   and the request has failed leaving no relation and no message, or it has returned nil and exactly
+   one MessageExitNode (link) / MessageDownNode (monitor) was sent to the requester. *)
+Theorem C04_node_race_exactly_one : forall k n n0,
+  kt k = TNode n -> pnode (kc k) <> n ->
+  forall s sched,
+  idx_ok (ns_tm s) -> nhas k s = false -> ncnt k s = n0 ->
+  let c := nrun true k n sched (mkncfg s NL_load (unreg_conn_prog true n)) in
+  nfinished c = true ->
+  nconn n (nc_st c) = false /\
+  match nresult c with
+  | RErr _ => nhas k (nc_st c) = false /\ ncnt k (nc_st c) = n0
+  | ROk => nhas k (nc_st c) = false /\ ncnt k (nc_st c) = S n0
+  | _ => False
+  end.
+Proof. exact node_race_exactly_one. Qed.
+Print Assumptions C04_node_race_exactly_one.
+
+(* both halves are needed: without the re-check (the code before commit da9362c) the schedule
+   [lookup | connections.Delete, RouteNodeDown | insert] returns nil, leaves the relation on a node
+   without connection and sends nothing; with the re-check but unregisterConnection written
+   "RouteNodeDown, then connections.Delete" the schedule [CleanupNode | lookup, insert, re-check |
+   delete] does the same. *)
+Theorem C04_node_request_without_recheck_refuted : forall mon,
+  nlost false true mon [true; false; false; true] = true.
+Proof. exact node_request_without_recheck_refuted. Qed.
+Print Assumptions C04_node_request_without_recheck_refuted.
+
+Theorem C04_unregister_connection_drain_first_refuted : forall mon,
+  nlost true false mon [false; true; true; true; false] = true.
+Proof. exact unregister_connection_drain_first_refuted. Qed.
+Print Assumptions C04_unregister_connection_drain_first_refuted.
 
 (* non-vacuity: a concrete history (observer 1002 links and monitors process 1001 and its name, 1001
    is killed) reaches a state where the hypotheses hold and notifications are due and delivered;
